@@ -45,7 +45,7 @@ def build_types(vi):
     return m
 
 
-LINK_SHAPES = ['one_many', 'one_one', 'refl', 'assoc', 'composite', 'subtype']
+LINK_SHAPES = ['one_many', 'one_one', 'refl', 'assoc', 'composite', 'subtype', 'two_ids', 'one_phrase']
 
 
 def link_space(shape):
@@ -63,6 +63,11 @@ def link_space(shape):
         return list(itertools.product(range(-1, 2), repeat=2))
     if shape == 'subtype':
         return [(x, y) for x in range(-1, 2) for y in range(-1, 2) if x < 0 or x != y]
+    if shape == 'two_ids':
+        return list(itertools.product(range(-1, 2), repeat=2))        # B -> a? via Id, C -> a? via Code
+    if shape == 'one_phrase':
+        return [c for c in itertools.product(range(-1, 3), repeat=3)
+                if len([x for x in c if x >= 0]) == len(set(x for x in c if x >= 0))]
 
 
 def build_links(shape, st):
@@ -110,6 +115,23 @@ def build_links(shape, st):
         B = [m.new('B') for _ in range(2)]
         for b, a in zip(B, st):
             if a >= 0: xtuml.relate(b, A[a], 4)
+    elif shape == 'two_ids':
+        # two associations into the same class through different identifiers, referential attributes named alike
+        m.define_class('A', [('Id', 'unique_id'), ('Code', 'unique_id')])
+        m.define_class('B', [('Ref', 'unique_id')]); m.define_class('C', [('Ref', 'unique_id')])
+        m.define_association(8, 'B', ['Ref'], True, True, '', 'A', ['Id'], False, True, '').formalize()
+        m.define_association(9, 'C', ['Ref'], True, True, '', 'A', ['Code'], False, True, '').formalize()
+        A = [m.new('A', Id=1, Code=2), m.new('A', Id=2, Code=1)]
+        b = m.new('B'); c = m.new('C')
+        if st[0] >= 0: xtuml.relate(b, A[st[0]], 8)
+        if st[1] >= 0: xtuml.relate(c, A[st[1]], 9)
+    elif shape == 'one_phrase':
+        # reflexive association with a phrase on one end only
+        m.define_class('N', [('Id', 'unique_id'), ('Next_Id', 'unique_id')])
+        m.define_association(6, 'N', ['Next_Id'], False, True, '', 'N', ['Id'], False, True, 'succeeds').formalize()
+        N = [m.new('N') for _ in range(3)]
+        for n, sidx in zip(N, st):
+            if sidx >= 0: xtuml.relate(n, N[sidx], 6, '')
     elif shape == 'subtype':
         m.define_class('P', [('Id', 'unique_id')]); m.define_class('X', [('Id', 'unique_id'), ('v', 'integer')])
         m.define_class('Y', [('Id', 'unique_id')])
